@@ -14,7 +14,6 @@ Ltac zcases H :=
 Definition ev_inv (s : evs) : Prop :=
   0 <= vtoclose s /\ 0 <= vclosed s /\ vtoclose s + vclosed s = b2z (vfired s).
 Definition is_cas (o : vop) : bool := match o with VCas => true | _ => false end.
-Fixpoint zsum (l : list Z) : Z := match l with [] => 0 | x :: r => x + zsum r end.
 
 Lemma vsteps_spec : forall l s s' xs, vsteps s l = (s', xs) -> ev_inv s ->
   ev_inv s' /\ vfired s' = (vfired s || existsb is_cas l) /\
@@ -348,27 +347,39 @@ Proof. apply forallb_app. Qed.
 Lemma word_eqb_refl w : word_eqb w w = true.
 Proof. induction w as [|x w IH]; cbn; [reflexivity|]. rewrite Z.eqb_refl, IH. reflexivity. Qed.
 
-Lemma bridge_event : forall ops s, forallb op_wf2 ops = true ->
+Lemma existsb_repeat_cas n : (1 <= n)%nat -> forall l, existsb is_cas (repeat VCas n ++ l) = true.
+Proof. intros H l. destruct n; [lia|]. reflexivity. Qed.
+
+Lemma stress_bad_0 g : 1 <= g -> stress_bad g = 0.
+Proof.
+  intro H. unfold stress_bad.
+  set (l := repeat VCas (Z.to_nat g) ++ repeat VClose (Z.to_nat g)).
+  destruct (vsteps evs0 l) as [s xs] eqn:E.
+  destruct (event_fire_once l s xs E) as (S & _). cbn [snd]. rewrite S.
+  unfold l. rewrite existsb_repeat_cas by lia. reflexivity.
+Qed.
+
+Lemma bridge_event : forall ops s, forallb op_wf2e ops = true ->
   vtoclose s = 0 -> vclosed s = b2z (vfired s) ->
   exists obs, eexec s ops = Some obs /\ all_ok (clauses2 (vfired s) ops obs) = true.
 Proof.
   induction ops as [|op r IH]; intros s W T C; [exists []; auto|].
   cbn [forallb] in W. apply andb_true_iff in W. destruct W as (W1 & W2).
   destruct s as [f tc cl]; cbn in T, C; subst.
-  unfold op_wf2 in W1. zcases W1.
-  - (* [3] *)
-    destruct (IH (mkevs f 0 (b2z f)) W2 eq_refl eq_refl) as (obs & E & Ok). cbn in E, Ok.
-    eexists. cbn [eexec estep]. rewrite E. split; [reflexivity|]. cbn [clauses2 clause2 vstep snd vclosed vfired].
-    rewrite all_ok_app, Ok. destruct f; reflexivity.
-  - (* [2] *)
-    destruct (IH (mkevs f 0 (b2z f)) W2 eq_refl eq_refl) as (obs & E & Ok). cbn in E, Ok.
-    eexists. cbn [eexec estep]. rewrite E. split; [reflexivity|]. cbn [clauses2 clause2 vstep snd vfired].
-    rewrite all_ok_app, Ok. destruct f; reflexivity.
-  - (* [1] *)
-    destruct (IH (mkevs true 0 1) W2 eq_refl eq_refl) as (obs & E & Ok). cbn in E, Ok.
-    destruct f; cbn [eexec estep vstep vfired vtoclose vclosed b2z Z.ltb Z.compare].
-    + change (0 <? 0) with false. cbn. rewrite E. eexists; split; [reflexivity|]. cbn. exact Ok.
-    + cbn. rewrite E. eexists; split; [reflexivity|]. cbn. exact Ok.
+  unfold op_wf2e in W1. zcases W1.
+  all: first
+    [ solve [ apply andb_true_iff in W1; destruct W1 as (W1 & Wc); apply andb_true_iff in W1; destruct W1 as (Wa & Wb);
+              destruct (IH (mkevs f 0 (b2z f)) W2 eq_refl eq_refl) as (obs & E & Ok); cbn in E, Ok;
+              eexists; cbn [eexec estep]; rewrite Wa, Wb, Wc; cbn [andb]; rewrite E; (split; [reflexivity|]);
+              cbn [clauses2 clause2 vfired]; rewrite all_ok_app, Ok; apply Z.leb_le in Wb;
+              rewrite (stress_bad_0 _ Wb), Z.mul_0_r; reflexivity ]
+    | solve [ destruct (IH (mkevs f 0 (b2z f)) W2 eq_refl eq_refl) as (obs & E & Ok); cbn in E, Ok;
+              eexists; cbn [eexec estep]; rewrite E; (split; [reflexivity|]);
+              cbn [clauses2 clause2 vstep snd vclosed vfired]; rewrite all_ok_app, Ok; destruct f; reflexivity ]
+    | solve [ destruct (IH (mkevs true 0 1) W2 eq_refl eq_refl) as (obs & E & Ok); cbn in E, Ok;
+              destruct f; cbn [eexec estep vstep vfired vtoclose vclosed b2z Z.ltb Z.compare];
+              [ change (0 <? 0) with false; cbn; rewrite E; eexists; (split; [reflexivity|]); cbn; exact Ok
+              | cbn; rewrite E; eexists; (split; [reflexivity|]); cbn; exact Ok ] ] ].
 Qed.
 
 Lemma getloc_setloc t v l : getloc t (setloc t v l) = Some v.
@@ -432,16 +443,27 @@ Qed.
 Lemma win_a : win_viol (xsteps [] win_remove_first) = (0, 0). Proof. vm_compute. reflexivity. Qed.
 Lemma win_b : win_viol (xsteps [] win_timer_first) = (0, 0). Proof. vm_compute. reflexivity. Qed.
 
+Lemma win_c1 : cb_total (xsteps [] (win_clear_first true)) = 1. Proof. vm_compute. reflexivity. Qed.
+Lemma win_c2 : cb_total (xsteps [] (win_timer_clear true)) = 1. Proof. vm_compute. reflexivity. Qed.
+Lemma win_c3 : cb_total (xsteps [] (win_clear_first false)) = 0. Proof. vm_compute. reflexivity. Qed.
+
 Lemma bridge_window : forall ops, forallb op_wf4 ops = true ->
   exists obs, wexec ops = Some obs /\ all_ok (clauses4 ops obs) = true.
 Proof.
   induction ops as [|op r IH]; intro W; [exists []; auto|].
   cbn [forallb] in W. apply andb_true_iff in W. destruct W as (W1 & W2).
   destruct (IH W2) as (obs & E & Ok).
-  unfold op_wf4 in W1. zcases W1. apply Z.leb_le in W1.
-  exists ([z * 0; z * 0] :: obs). cbn [wexec wstep]. rewrite win_a, win_b.
-  assert (z <? 0 = false) as -> by (apply Z.ltb_ge; lia). cbn [fst snd Z.add]. rewrite E. split; [reflexivity|].
-  cbn [clauses4]. rewrite !Z.mul_0_r. cbn. exact Ok.
+  unfold op_wf4 in W1. zcases W1; apply Z.leb_le in W1.
+  all: first
+    [ solve [ eexists; cbn [wexec wstep]; rewrite win_a, win_b;
+              match goal with |- context[?z <? 0] => assert (z <? 0 = false) as -> by (apply Z.ltb_ge; lia) end;
+              cbn [fst snd Z.add]; rewrite E; (split; [reflexivity|]);
+              cbn [clauses4]; rewrite !Z.mul_0_r; cbn; exact Ok ]
+    | solve [ cbn [wexec wstep];
+              match goal with |- context[?z <? 0] => assert (z <? 0 = false) as -> by (apply Z.ltb_ge; lia) end;
+              match goal with |- context[?r =? 0] => destruct (r =? 0) end; cbn [negb];
+              rewrite ?win_c1, ?win_c2, ?win_c3; cbn; rewrite ?Z.mul_0_r, E;
+              eexists; (split; [reflexivity|]); cbn; exact Ok ] ].
 Qed.
 
 (* full statement (not proved for the cache kind, see spec level_note):
